@@ -62,7 +62,13 @@ class Ctx:
 def build_harness(ctx, cmd, race=False):
     """Build harness/cmd/<cmd> against /repo's current working tree."""
     sumsrc = os.path.join(REPO, "go.sum")
-    shutil.copyfile(sumsrc, os.path.join(HARNESS, "go.sum"))
+    # atomically, and only when it differs: several checks may build at the same time (a half-written go.sum is "malformed")
+    dst = os.path.join(HARNESS, "go.sum")
+    want = open(sumsrc, "rb").read()
+    if not (os.path.exists(dst) and open(dst, "rb").read() == want):
+        tmp = "%s.%d.tmp" % (dst, os.getpid())
+        open(tmp, "wb").write(want)
+        os.replace(tmp, dst)
     out = ctx.path("bin-" + cmd + ("-race" if race else ""))
     args = ["go", "build", "-tags", "verif", "-o", out]
     if race:
